@@ -12,15 +12,16 @@ from props.C02 import coords
 HARNESS = ['root_intrinsics.go', 'root_element.go']
 
 
-def run(tier, seed):
-    ck = Check('C05', tier, seed, level='proof')
+def run(tier, seed, ck=None):
+    own = ck is None
+    ck = ck or Check('C05', tier, seed, level='proof')
     runs = ck.absorb(core.symx(HARNESS, [{'id': 'eq%d' % a, 'harness': 'vh_el_equal', 'args': [a], 'summaries': FIELD_SUMM} for a in (0, 1)]))
-    ck.extra['_runs'] = runs
-    ck.trusted = ['go/ssa + symx translation', 'SMT solvers', 'contracts of field.Element.Multiply/Equals/IsZero (C12)',
+    ck.extra.setdefault('_runs', []).extend(runs)
+    ck.trusted += ['go/ssa + symx translation', 'SMT solvers', 'contracts of field.Element.Multiply/Equals/IsZero (C12)',
                   'projective equality: for valid representations (Z != 0 on the curve, or (0:Y:0) with Y != 0) two triples denote the same point iff X1Z2 = X2Z1 and Y1Z2 = Y2Z1 '
                   '(Z1,Z2 != 0: divide by Z1Z2; one Z zero: second equation forces the other Z to be 0 because Y != 0; both zero: both sides vanish)']
-    ck.assumptions = ['operands are valid representations (the invariant of C10)']
-    ck.bounds = {'operands': 'all coordinate 6-tuples as ring elements', 'aliasing': 'distinct / same element'}
+    ck.assumptions += ['operands are valid representations (the invariant of C10)']
+    ck.bounds.update({'operands': 'all coordinate 6-tuples as ring elements', 'aliasing': 'distinct / same element'})
     kernels.prove(ck, 'field', ['Mul', 'Nonzero'], tier)
     for al, r in enumerate(runs):
         tag = 'C05.alias%d' % al
@@ -55,7 +56,7 @@ def run(tier, seed):
             ck.violation('equal', 'Equal/IsIdentity wrong on curve points: %s' % [l.strip() for l in out.splitlines() if 'MISMATCH' in l][:1], path)
         else:
             ck.inconclusive.append('failed obligation did not reproduce: ' + out[-200:])
-    return ck.finish()
+    return ck.finish() if own else None
 
 
 def replay(path):
